@@ -1,4 +1,5 @@
 import ScrapliProps.C09Lemmas
+import ScrapliProps.C09Decor
 import ScrapliModel.Channel.Ansi
 /-
   C09 — in-channel login answers the right prompt, once, and gives up safely.
@@ -570,5 +571,234 @@ theorem kick_witness_ansi_username_twice :
         ⟨[asc "admin\nPassword: ", asc "\nr1#"], asc "\nUsername: "⟩
         [(4, 2), (11, 2), (100, 2), (100, 2), (100, 2)]).s
       = [(.ret, true), (.username, true), (.username, true)] := by decide +kernel
+
+/-! ### closed system with the REAL cleaner of `Channel.read`: dialogues decorated with carriage returns and
+    complete escape sequences, cut anywhere; schedules with empty reads; kicks -/
+
+theorem cfgOK'_of (l : Loop) (P : Kind → Bytes → Bool) (pr : Bytes → Bool) (ivl : Nat)
+    (cl : Bytes → Bytes → Bytes × Bytes) (hP : ∀ k, P k [] = false) (hpr : pr [] = false) :
+    CfgOK' (cfgOfC l P pr ivl cl) :=
+  ⟨(loop_kinds l).2.2, (loop_kinds l).1, (loop_kinds l).2.1, hP, hpr⟩
+
+/-- **closed-system theorem with `Channel.read`'s real per-read cleaner** (`chanReadH`: CR removal, escape
+    sequences stripped, the beginning of a sequence cut by the end of a read held back for the next read).
+    The device prints `g0` and releases `d.segs` one per credential line; each of these is the text
+    `p0` / `ps` DECORATED with carriage returns and complete escape sequences (`Decor`), and the read
+    boundaries fall anywhere — inside a sequence, between CR and LF.  If the undecorated text satisfies
+    the static condition `Safe` on every prefix, then for every schedule of reads AND empty reads
+    (`Ev.idle`) on which a kick, if one fires, meets a device that ignores empty lines (no kick in the
+    loop, or no time passes, or `onRet = []`): the login never leaves the expected course, is never
+    stalled, and its credential log (`credView`: bare returns left out) is the expected one. -/
+theorem dialogue_outcome_decorated (c : Cfg) (ok : CfgOK' c) (hcl : c.clean = Chan.chanReadH)
+    (exp : List Kind) (g0 : Bytes) (d : Dev) (p0 : Bytes) (ps : List Bytes)
+    (h0 : Decor g0 p0) (hd : All2 Decor d.segs ps)
+    (hs : Safe c allSplits (fun _ => 0) exp (lower p0) ps)
+    (sched : List Ev) (ht : c.kicks = false ∨ (∀ e ∈ sched, e.time = 0) ∨ d.onRet = []) :
+    ((sysRunI c g0 d sched).s.status = .running ∨
+        (sysRunI c g0 d sched).s.status = outcome c (fun _ => 0) exp) ∧
+    ((sysRunI c g0 d sched).avail = [] → (sysRunI c g0 d sched).s.status = outcome c (fun _ => 0) exp) ∧
+    (∃ more, credView (sysRunI c g0 d sched).s ++ more = expLog c (fun _ => 0) exp) ∧
+    ((sysRunI c g0 d sched).s.status = outcome c (fun _ => 0) exp →
+        credView (sysRunI c g0 d sched).s = expLog c (fun _ => 0) exp) :=
+  gphase_facts c AnsiR (ansiReads c hcl) _ _ _
+    (gphase_run c ok AnsiR (ansiReads c hcl) _ _ sched _ ht (gphase_init c ok exp g0 d p0 ps h0 hd hs))
+
+/-- **C09 × C02: the login does not depend on decoration or segmentation.**  Two devices that print the
+    same texts with different carriage returns / escape sequences, read under two different schedules:
+    once everything printed has been read both logins have ended the same way and have answered the
+    same credential prompts in the same order (the only other bytes the loop ever writes are the bare
+    returns of the kick). -/
+theorem login_decoration_independent (c : Cfg) (ok : CfgOK' c) (hcl : c.clean = Chan.chanReadH)
+    (exp : List Kind) (p0 : Bytes) (ps : List Bytes) (hs : Safe c allSplits (fun _ => 0) exp (lower p0) ps)
+    (g0 g0' : Bytes) (d d' : Dev) (h0 : Decor g0 p0) (h0' : Decor g0' p0)
+    (hd : All2 Decor d.segs ps) (hd' : All2 Decor d'.segs ps) (sched sched' : List Ev)
+    (ht : c.kicks = false ∨ (∀ e ∈ sched, e.time = 0) ∨ d.onRet = [])
+    (ht' : c.kicks = false ∨ (∀ e ∈ sched', e.time = 0) ∨ d'.onRet = [])
+    (hall : (sysRunI c g0 d sched).avail = []) (hall' : (sysRunI c g0' d' sched').avail = []) :
+    (sysRunI c g0 d sched).s.status = (sysRunI c g0' d' sched').s.status ∧
+    credView (sysRunI c g0 d sched).s = credView (sysRunI c g0' d' sched').s := by
+  have a := dialogue_outcome_decorated c ok hcl exp g0 d p0 ps h0 hd hs sched ht
+  have b := dialogue_outcome_decorated c ok hcl exp g0' d' p0 ps h0' hd' hs sched' ht'
+  have ha := a.2.1 hall
+  have hb := b.2.1 hall'
+  exact ⟨by rw [ha, hb], by rw [a.2.2.2 ha, b.2.2.2 hb]⟩
+
+/-- **C09, valid credentials (telnet), decorated dialogue, real cleaner**: `done`, username once then
+    password once — for every decoration, every segmentation, empty reads included -/
+theorem login_completes_decorated_partial (l : Loop) (hl : l = .syncTelnet ∨ l = .asyncTelnet)
+    (P : Kind → Bytes → Bool) (pr : Bytes → Bool) (ivl : Nat)
+    (hP : ∀ k, P k [] = false) (hpr : pr [] = false) (g0 g1 g2 onRet p0 p1 p2 : Bytes)
+    (h0 : Decor g0 p0) (h1 : Decor g1 p1) (h2 : Decor g2 p2)
+    (hs : Safe (cfgOfC l P pr ivl Chan.chanReadH) allSplits (fun _ => 0) [.username, .password] (lower p0) [p1, p2])
+    (sched : List Ev) (ht : (∀ e ∈ sched, e.time = 0) ∨ onRet = []) :
+    let y := sysRunI (cfgOfC l P pr ivl Chan.chanReadH) g0 ⟨[g1, g2], onRet⟩ sched
+    (y.s.status = .running ∨ y.s.status = .done) ∧
+    (y.avail = [] → y.s.status = .done) ∧
+    (∃ more, credView y.s ++ more = [(.username, true), (.password, true)]) ∧
+    (y.s.status = .done → credView y.s = [(.username, true), (.password, true)]) := by
+  have ho : outcome (cfgOfC l P pr ivl Chan.chanReadH) (fun _ => 0) [.username, .password] = .done := by
+    rcases hl with rfl | rfl <;> rfl
+  have hL : expLog (cfgOfC l P pr ivl Chan.chanReadH) (fun _ => 0) [.username, .password]
+      = [(.username, true), (.password, true)] := by
+    rcases hl with rfl | rfl <;> rfl
+  have := dialogue_outcome_decorated (cfgOfC l P pr ivl Chan.chanReadH) (cfgOK'_of l P pr ivl _ hP hpr) rfl
+    [.username, .password] g0 ⟨[g1, g2], onRet⟩ p0 [p1, p2] h0 ⟨h1, h2, trivial⟩ hs sched (Or.inr ht)
+  rw [ho, hL] at this
+  exact this
+
+/-- **the same for the ssh loops, any times, any empty reads** (they do not kick), for every expected
+    course of the dialogue (`exp`): valid credentials, re-prompting servers, rejection -/
+theorem ssh_dialogue_decorated (l : Loop) (hl : l = .syncSsh ∨ l = .asyncSsh)
+    (P : Kind → Bytes → Bool) (pr : Bytes → Bool) (ivl : Nat)
+    (hP : ∀ k, P k [] = false) (hpr : pr [] = false) (exp : List Kind) (g0 : Bytes) (d : Dev) (p0 : Bytes) (ps : List Bytes)
+    (h0 : Decor g0 p0) (hd : All2 Decor d.segs ps)
+    (hs : Safe (cfgOfC l P pr ivl Chan.chanReadH) allSplits (fun _ => 0) exp (lower p0) ps) (sched : List Ev) :
+    let c := cfgOfC l P pr ivl Chan.chanReadH
+    let y := sysRunI c g0 d sched
+    (y.s.status = .running ∨ y.s.status = outcome c (fun _ => 0) exp) ∧
+    (y.avail = [] → y.s.status = outcome c (fun _ => 0) exp) ∧
+    (∃ more, credView y.s ++ more = expLog c (fun _ => 0) exp) := by
+  have hk : (cfgOfC l P pr ivl Chan.chanReadH).kicks = false := by rcases hl with rfl | rfl <;> rfl
+  have := dialogue_outcome_decorated (cfgOfC l P pr ivl Chan.chanReadH) (cfgOK'_of l P pr ivl _ hP hpr) rfl
+    exp g0 d p0 ps h0 hd hs sched (Or.inl hk)
+  exact ⟨this.1, this.2.1, this.2.2.1⟩
+
+/-- **what a kick is**: one read adds at most one bare return to the log, and it adds one only in a loop
+    that kicks, at a read that `Channel.read` cleaned to nothing, after more than `return_interval *
+    return_attempts` have elapsed — every cleaner, every pattern -/
+theorem kick_only_when_silent_and_late (c : Cfg) (hk1 : c.k1 ≠ .ret) (hk2 : c.k2 ≠ .ret) (s : St) (raw : Bytes) (t : Nat) :
+    retsOf (step c s (.chunk raw t)).log ≤ retsOf s.log + 1 ∧
+    (retsOf (step c s (.chunk raw t)).log = retsOf s.log + 1 →
+      c.kicks = true ∧ (c.clean s.held raw).1 = [] ∧ c.ivl * s.attempts < t) := by
+  by_cases hr : s.status = .running
+  · rw [step_chunk c s raw t hr]
+    obtain ⟨K, hK, alog, _, _, _, _, _⟩ := afterRead_shape c s raw t
+    have hfin : ∀ x : St, retsOf x.log = retsOf (afterRead c s raw t).log →
+        retsOf x.log ≤ retsOf s.log + 1 ∧ (retsOf x.log = retsOf s.log + 1 →
+          c.kicks = true ∧ (c.clean s.held raw).1 = [] ∧ c.ivl * s.attempts < t) := by
+      intro x hx
+      rw [hx, alog]
+      rcases hK with rfl | ⟨rfl, h1, h2, h3⟩
+      · simp
+      · rw [retsOf_snoc]; exact ⟨by simp, fun _ => ⟨h1, h2, h3⟩⟩
+    split
+    · exact hfin _ rfl
+    · refine hfin _ ?_
+      rw [(finish_rets c _).1, (answer_rets c c.k2 hk2 _).1, (answer_rets c c.k1 hk1 _).1]
+  · rw [step_stopped c s _ hr]; exact ⟨by omega, fun h => by omega⟩
+
+/-- **the loop does not flood the device with returns**: on a tape without connection errors whose reads
+    all happen within `T` return-interval units, `return_interval × (number of returns written) < T` —
+    at most one return per return interval, whatever arrives; and (`at_most_twice`) the kicks never add a
+    credential write -/
+theorem kicks_rate_bounded (l : Loop) (P : Kind → Bytes → Bool) (pr : Bytes → Bool) (ivl : Nat)
+    (cl : Bytes → Bytes → Bytes × Bytes) (tape : List Read) (T : Nat)
+    (hne : .connErr ∉ tape) (hT : ∀ t ∈ timesOf tape, t ≤ T) :
+    retsOf (run (cfgOfC l P pr ivl cl) tape).log = 0 ∨ ivl * retsOf (run (cfgOfC l P pr ivl cl) tape).log < T :=
+  (kinv_fold (cfgOfC l P pr ivl cl) (loop_kinds l).1 (loop_kinds l).2.1 T tape hne hT init
+    ⟨rfl, Or.inl rfl⟩).rate
+
+/-! non-vacuity: a telnet dialogue with CR LF line ends, a reset in front of the prompt, a coloured
+    banner and an OSC title -/
+
+def dG0 : Bytes := asc "\r\n" ++ [27, 91, 48, 109] ++ asc "Username: "
+def dG1 : Bytes := asc "admin\r\n" ++ [27, 91, 49, 59, 51, 50, 109] ++ asc "Password: "
+def dG2 : Bytes := asc "\r\n" ++ [27, 93, 48, 59, 114, 49, 7] ++ asc "Welcome\r\n" ++ [27, 91, 51, 50, 109] ++ asc "r1#" ++ [27, 91, 48, 109]
+
+theorem dG0_decor : Decor dG0 (asc "\nUsername: ") :=
+  ⟨[.text (asc "\n") (by decide), .seq (.csi [48] 109 (by decide) (by decide)), .text (asc "Username: ") (by decide)],
+   by intro s hs
+      simp only [List.mem_cons, List.not_mem_nil, or_false] at hs
+      rcases hs with e | e | e <;> subst e
+      · trivial
+      · exact ⟨by decide, by decide⟩
+      · trivial,
+   by decide, by decide⟩
+
+theorem dG1_decor : Decor dG1 (asc "admin\nPassword: ") :=
+  ⟨[.text (asc "admin\n") (by decide), .seq (.csi [49, 59, 51, 50] 109 (by decide) (by decide)), .text (asc "Password: ") (by decide)],
+   by intro s hs
+      simp only [List.mem_cons, List.not_mem_nil, or_false] at hs
+      rcases hs with e | e | e <;> subst e
+      · trivial
+      · exact ⟨by decide, by decide⟩
+      · trivial,
+   by decide, by decide⟩
+
+theorem dG2_decor : Decor dG2 (asc "\nWelcome\nr1#") :=
+  ⟨[.text (asc "\n") (by decide), .seq (.osc 48 [59, 114, 49] (by decide) (by decide)), .text (asc "Welcome\n") (by decide),
+    .seq (.csi [51, 50] 109 (by decide) (by decide)), .text (asc "r1#") (by decide), .seq (.csi [48] 109 (by decide) (by decide))],
+   by intro s hs
+      simp only [List.mem_cons, List.not_mem_nil, or_false] at hs
+      rcases hs with e | e | e | e | e | e <;> subst e
+      · trivial
+      · exact ⟨by decide, by decide⟩
+      · trivial
+      · exact ⟨by decide, by decide⟩
+      · trivial
+      · exact ⟨by decide, by decide⟩,
+   by decide, by decide⟩
+
+set_option maxRecDepth 100000 in
+theorem dSafe : Safe (cfgOfC .syncTelnet defaultP chanPrompt.search 1 Chan.chanReadH) allSplits (fun _ => 0)
+    [.username, .password] (lower (asc "\nUsername: ")) [asc "admin\nPassword: ", asc "\nWelcome\nr1#"] :=
+  safeB_sound _ _ _ _ _ _ (by decide +kernel)
+
+def dCfg : Cfg := cfgOfC .syncTelnet defaultP chanPrompt.search 1 Chan.chanReadH
+def dSched : List Ev :=
+  [.read 1 0, .read 2 5, .idle 7, .read 3 7, .read 100 7, .read 9 8, .idle 30, .read 100 30, .read 100 31]
+
+/-- the hypotheses of `login_completes_decorated_partial` are met by that dialogue, on a device that
+    ignores empty lines, for reads that end inside the escape sequences and between CR and LF, with empty
+    reads in between at late times -/
+example :
+    ((sysRunI dCfg dG0 ⟨[dG1, dG2], []⟩ dSched).avail = [] → (sysRunI dCfg dG0 ⟨[dG1, dG2], []⟩ dSched).s.status = .done) ∧
+    ((sysRunI dCfg dG0 ⟨[dG1, dG2], []⟩ dSched).s.status = .done →
+      credView (sysRunI dCfg dG0 ⟨[dG1, dG2], []⟩ dSched).s = [(.username, true), (.password, true)]) :=
+  have h := login_completes_decorated_partial .syncTelnet (Or.inl rfl) defaultP chanPrompt.search 1
+    (by intro k; cases k <;> decide) default_prompts_reject_empty.1 dG0 dG1 dG2 [] _ _ _ dG0_decor dG1_decor dG2_decor dSafe dSched
+    (Or.inr rfl)
+  ⟨h.2.1, h.2.2.2⟩
+
+set_option maxRecDepth 100000 in
+/-- … and that run does end in `done` with a kick on the way (the theorem is not about stalled runs only) -/
+example : (sysRunI dCfg dG0 ⟨[dG1, dG2], []⟩ dSched).s.status = .done ∧
+    0 < retsOf (sysRunI dCfg dG0 ⟨[dG1, dG2], []⟩ dSched).s.log := by
+  decide +kernel
+
+/-- non-vacuity of `kicks_rate_bounded`: three silent reads at times 2, 3, 9 with interval 2 ⇒ two returns -/
+example : retsOf (run (cfgOfC .asyncTelnet defaultP chanPrompt.search 2 Chan.chanReadH)
+    [.chunk [] 2, .chunk [] 3, .chunk [13] 9]).log = 2 := by decide +kernel
+
+/-! ### what a kick may break (the hypothesis `onRet = []` cannot be dropped) -/
+
+/-- a device whose answer to the username is still on its way when an empty read comes after the return
+    interval; its reaction to the empty line it then receives at the password prompt is
+    `Login incorrect` and a new `Username:` prompt -/
+def lagDev : Dev := ⟨[asc "admin\nPassword: ", asc "\nr1#"], asc "\nLogin incorrect\nUsername: "⟩
+def lagSched : List Ev := [.read 100 0, .idle 2, .read 100 2, .read 100 2]
+
+set_option maxRecDepth 100000 in
+theorem lag_witness_safe : Safe (tcfgA 1) allSplits (fun _ => 0) [.username, .password] (lower (asc "Username: "))
+    lagDev.segs :=
+  safeB_sound _ _ _ _ _ _ (by decide +kernel)
+
+set_option maxRecDepth 100000 in
+theorem lag_witness_username_twice :
+    credView (sysRunI (tcfgA 1) (asc "Username: ") lagDev lagSched).s = [(.username, true), (.username, true)] ∧
+    retsOf (sysRunI (tcfgA 1) (asc "Username: ") lagDev lagSched).s.log = 1 := by decide +kernel
+
+/-- **a kick is not harmless for a device that reacts to empty lines**: an EMPTY read (not a chunk that
+    cleans to nothing — that is F23) after the return interval, while the device's password prompt is on
+    its way, puts a return into the dialogue; the credential log is no longer the expected one although
+    every prefix of the text is safe and nothing is decorated -/
+theorem kick_harmless_full_refuted :
+    ¬ ∀ (g0 : Bytes) (d : Dev) (sched : List Ev),
+        Safe (tcfgA 1) allSplits (fun _ => 0) [.username, .password] (lower g0) d.segs →
+        ∃ more, credView (sysRunI (tcfgA 1) g0 d sched).s ++ more = [(.username, true), (.password, true)] := by
+  intro h
+  obtain ⟨more, hm⟩ := h (asc "Username: ") lagDev lagSched lag_witness_safe
+  rw [lag_witness_username_twice.1] at hm
+  simp at hm
 
 end Scrapli.Auth
